@@ -9,7 +9,7 @@ from symx.lib import *  # noqa
 META = {
     "bounds": {
         "quick": "contents of <=2 notes (+TS) in conversion normal form (3 shapes incl. one without trailing rest), pitch 60..61, "
-                 "channel 0..1, waits 1..10, one step of the 45-operation alphabet with symbolic arguments from each of the three "
+                 "channel 0..1, waits 1..10, one step of the 39-operation alphabet with symbolic arguments from each of the three "
                  "freshness states (stale slot holding an unrelated sequence), state size <= 9 messages",
         "thorough": "as quick with waits 1..16, an ill-formed content (re-triggered note) and two-step sequences generator-step ; any step",
     },
